@@ -209,7 +209,9 @@ def gen_open_case(rng, idx=None):
     cfg = dict(T=T, F=F, int=int_time, sync=t0 - first, first=first, off=off, cbf=cbf, unknown_how=unknown_how,
                resources=resources + ',sdp_1,' + ','.join(f'm{i:03}' for i in range(n_ants)), product=product,
                centre=rng.choice([1284e6, 1284e6 + 104492.1875, 816e6, 2406.25e6]), width=rng.choice(WIDTHS),
-               n_ants=n_ants, seed=rng.randrange(2 ** 30))
+               n_ants=n_ants, seed=rng.randrange(2 ** 30),
+               # the documented timestamps= override of the data source, given the very values telstate implies
+               ts_override=rng.random() < 0.3)
     # preselect
     r = rng.random()
     pre = {}
@@ -321,7 +323,11 @@ def open_pre(syn, case, pre_py):
     from katdal.datasources import TelstateDataSource, view_l0_capture_stream
     from katdal.visdatav4 import VisibilityDataV4
     view, cbid, sn = view_l0_capture_stream(syn.telstate, syn.cbid, syn.stream)
-    src = TelstateDataSource(view, cbid, sn, chunk_store=syn.store, preselect=pre_py)
+    kw = {}
+    cfg = case['cfg']
+    if cfg.get('ts_override'):
+        kw['timestamps'] = cfg['sync'] + cfg['first'] + np.arange(cfg['T']) * cfg['int']
+    src = TelstateDataSource(view, cbid, sn, chunk_store=syn.store, preselect=pre_py, **kw)
     return VisibilityDataV4(src, time_offset=case['cfg']['off'], preselect=pre_py)
 
 
